@@ -20,6 +20,15 @@ NPROC = min(16, os.cpu_count() or 4)
 def _exec_one(job):
     from . import world
     idx, sc = job
+    import signal
+
+    def on_alarm(signum, frame):
+        raise world.Watchdog('wall-clock limit of one scenario exceeded')
+    try:
+        signal.signal(signal.SIGALRM, on_alarm)
+        signal.alarm(int(sc.get('wall_limit', 60)))
+    except ValueError:
+        pass                      # not in the main thread
     try:
         log, ws = world.run_scenario(sc)
         return idx, log, None
@@ -27,6 +36,11 @@ def _exec_one(job):
         return idx, None, 'MACHINERY: %s' % e
     except BaseException as e:   # harness bug
         return idx, None, 'HARNESS: %s\n%s' % (e, traceback.format_exc())
+    finally:
+        try:
+            signal.alarm(0)
+        except ValueError:
+            pass
 
 
 def execute(scenarios, nproc=None, fn=_exec_one, chunksize=None):
